@@ -35,6 +35,10 @@ def corpus(tier):
     for dname in dags.DAGS:
         for top in dags.DAGS[dname]()["modules"]:
             items.append(("dag", dname, top))
+    # the tops again, flattened (hdl21.flatten) before they are exported
+    for dname, tops in (("dag1", ("T", "T2", "C2")), ("dag2", ("P", "Q"))):
+        for top in tops:
+            items.append(("flat", dname, top))
     for ex in ["ro", "rdac", "encoder", "diff_ota", "idac", "bundles"]:
         items.append(("example", ex, None))
     # generated modules whose names are made from parameter values: calls of a dict-parameter external module, a set of
@@ -121,7 +125,12 @@ def produce(item):
             design = dags.with_top(dags.DAGS[a](), b)
         try:
             built = build(design)
-            pkg = h.to_proto(built.top)
+            if kind == "flat":
+                from hdl21.flatten import flatten
+
+                pkg = h.to_proto(flatten(built.top))
+            else:
+                pkg = h.to_proto(built.top)
         except Exception as e:
             return ["raised " + type(e).__name__]
     outs.append(pkg.SerializeToString(deterministic=True).hex())
@@ -270,7 +279,7 @@ def run(ctx):
     # ---- seed conformance leg ----
     rnd = random.Random(ctx.seed)
     idxs = sorted(rnd.sample(range(len(items)), min(len(items), 40 if ctx.quick else 120)))
-    idxs = sorted(set(idxs) | {i for i, it in enumerate(items) if it[0] == "gen"})  # the generated-name designs always take part
+    idxs = sorted(set(idxs) | {i for i, it in enumerate(items) if it[0] in ("gen", "flat")})  # the generated-name and the flattened designs always take part
     idxs = [i for i in idxs if i in digests]
     seeds = ["0", "1", "2", "31337", "99", str(1000 + ctx.seed), "424242", "7"][: 5 if ctx.quick else 8]
     procs = []
